@@ -1,0 +1,81 @@
+//! In-process conformance API. Only compiled with `--cfg wild_verif`.
+//!
+//! Thin public wrappers around crate-private pure functions so that an external harness crate
+//! (`/verif/harness/wildconf`) can replay model-checker-enumerated vectors into the real code. The
+//! wrappers add no logic of their own: they convert between plain integers and the crate's private
+//! types and call the real function. Nothing in the linker calls into this module.
+//!
+//! One section per topic; add new sections at the end.
+
+// ---------------------------------------------------------------------------------------------
+// alignment.rs
+
+/// `Alignment::new(raw)`: `Ok(exponent)` if accepted, `Err(message)` otherwise.
+pub fn alignment_new(raw: u64) -> Result<u8, String> {
+    crate::alignment::Alignment::new(raw)
+        .map(|a| a.exponent)
+        .map_err(|e| e.to_string())
+}
+
+/// `Alignment { exponent }.value()`.
+#[must_use]
+pub fn alignment_value(exponent: u8) -> u64 {
+    crate::alignment::Alignment { exponent }.value()
+}
+
+/// `Alignment { exponent }.align_up(value)`.
+#[must_use]
+pub fn align_up(exponent: u8, value: u64) -> u64 {
+    crate::alignment::Alignment { exponent }.align_up(value)
+}
+
+/// `Alignment { exponent }.align_down(value)`.
+#[must_use]
+pub fn align_down(exponent: u8, value: u64) -> u64 {
+    crate::alignment::Alignment { exponent }.align_down(value)
+}
+
+/// `Alignment { exponent }.align_modulo(ref_offset, offset)`.
+#[must_use]
+pub fn align_modulo(exponent: u8, ref_offset: u64, offset: u64) -> u64 {
+    crate::alignment::Alignment { exponent }.align_modulo(ref_offset, offset)
+}
+
+// ---------------------------------------------------------------------------------------------
+// thunks.rs
+
+/// One call of the `assign` callback of `thunks::assign_thunk_blocks`.
+#[derive(Debug, Clone, Copy, PartialEq, Eq)]
+pub struct ThunkAssignment {
+    /// Index of the object in the slice that was passed in.
+    pub object: usize,
+    pub block: usize,
+    pub is_owner: bool,
+}
+
+/// Calls the real `thunks::assign_thunk_blocks` on objects given as `(start, end)` in address
+/// order, with the supplied `max_branch_range`. Returns the number of blocks and every `assign`
+/// callback invocation in call order (the linker keeps the last one per object).
+#[must_use]
+pub fn assign_thunk_blocks(
+    objects: &[(u64, u64)],
+    max_branch_range: u64,
+) -> (usize, Vec<ThunkAssignment>) {
+    use crate::input_data::FileId;
+    let mut calls = Vec::new();
+    let num_blocks = crate::thunks::verif_assign_thunk_blocks(
+        objects
+            .iter()
+            .enumerate()
+            .map(|(i, &(start, end))| (FileId::new(0, i as u32), start, end)),
+        max_branch_range,
+        |file_id, block_id, is_owner| {
+            calls.push(ThunkAssignment {
+                object: file_id.file(),
+                block: block_id.as_usize(),
+                is_owner,
+            });
+        },
+    );
+    (num_blocks, calls)
+}
